@@ -111,8 +111,25 @@ def _round(case: Dict[str, Any], path: str) -> CaseResult:
             exp_cached = set(R1.executed)
             if cached_sites != exp_cached:
                 res.viol("cache-contents", f"file holds sites {sorted(cached_sites)}, executed were {sorted(exp_cached)}")
-        # ---- restart run on a freshly built DAG
-        b2 = prog.build(P, is_async=is_async, mc=case.get("mc", 2))
+        # ---- restart run on a freshly built DAG - or on the SAME instance after a plain call in between (every setup
+        # node of the instance has then been computed and must not run again, whatever the file holds)
+        on_instance: Dict[str, Any] = {}
+        if case.get("same_instance"):
+            b2 = b1
+            try:
+                with sched.Exec("free"):
+                    _ = asyncio.run(b1.dag(*args)) if is_async else b1.dag(*args)
+            except BaseException as e:  # noqa: BLE001
+                if isinstance(e, KeyboardInterrupt):
+                    raise
+                res.viol("plain-call-raised", f"a plain call between caching run and restart raised {type(e).__name__}: {str(e)[:200]}")
+                return res
+            Rf = prog.Ref()
+            prog.ref_run(P, args, Rf)
+            on_instance = {s: Rf.values[s] for s in M.sites if M.spec[s].get("setup")}
+            res.cls("restart-on-the-same-instance")
+        else:
+            b2 = prog.build(P, is_async=is_async, mc=case.get("mc", 2))
         rmode = case["restart_mode"]
         rsel = csel if rmode in ("target", "deps_of") else None
         sel2 = selection(M, {"T": rsel}) if rmode in ("target", "deps_of") else None
@@ -133,7 +150,7 @@ def _round(case: Dict[str, Any], path: str) -> CaseResult:
         tag = f" [cache: {cmode} {csel}; restart: {rmode} {rsel}]"
         if again:
             res.viol("cached-node-recomputed", f"the restart executed {again} although their results are in the cache file" + tag)
-        R2 = prog.Ref(selected=sel2, pre={s: R1.values[s] for s in cached_sites})
+        R2 = prog.Ref(selected=sel2, pre=dict(on_instance, **{s: R1.values[s] for s in cached_sites}))
         rv2 = prog.ref_run(P, args, R2)
         want_entered = Counter(R2.executed)
         if not again and entered != want_entered:
@@ -154,7 +171,7 @@ def _round(case: Dict[str, Any], path: str) -> CaseResult:
 def cases(draw: Any, tier: str) -> Dict[str, Any]:
     npar = draw(st.integers(0, 1))
     P = draw(gen.flat_prog(min_sites=3, max_sites=8, max_deps=3, resources=gen.RES, dep_kinds=("pos", "kw"),
-                           n_params=npar, prio_range=(-1, 2), none_rate=0.2, short_name_rate=0.3))
+                           n_params=npar, prio_range=(-1, 2), none_rate=0.2, short_name_rate=0.3, n_setup=draw(st.integers(0, 2))))
     sites = [s["site"] for s in P["body"]]
     case: Dict[str, Any] = {"prog": P, "mc": draw(st.integers(1, 3)), "async": draw(st.booleans()), "args": [draw(st.sampled_from([0, 1, "a"])) for _ in range(npar)]}
     case["cache_mode"] = draw(st.sampled_from(["whole", "target", "target", "deps_of", "deps_of"]))
@@ -170,6 +187,8 @@ def cases(draw: Any, tier: str) -> Dict[str, Any]:
         case["restart_mode"] = draw(st.sampled_from(["whole", "target"]))
     else:
         case["restart_mode"] = "whole"
+    if draw(st.sampled_from([True, False, False])):
+        case["same_instance"] = True  # the restart runs on the instance of the caching run, after a plain call
     if draw(st.booleans()):
         # a second round that rewrites the same file with other arguments / another selection
         r2: Dict[str, Any] = {"args": [draw(st.sampled_from([2, 3, "b"])) for _ in range(npar)]}
